@@ -11,7 +11,9 @@ Vocabulary (Model/Container/Mp4.lean, Proofs/Container/Mp4.lean):
   `updateParents`                     __update_parents on the bytes, at the offsets of the path atoms
   `parse`, `regionOf`, `saveAt`       mutagen's parser, the region MP4Tags.__save replaces, and the bookkeeping
                                       of the save on the bytes (splice, __update_parents, __update_offsets)
-  `visited atoms`                     the stco/co64/tfhd atoms __update_offsets visits (first moov, every top-level moof)
+  `visited atoms`                     the stco/co64/tfhd atoms __update_offsets finds (first moov, every top-level moof);
+                                      it skips those that start inside the replaced region (`visitedIn`, /repo ded7b59):
+                                      none under `SaveSafe` (`visitedIn_eq_visited`)
   `allTables atoms`                   the stco/co64/tfhd atoms below every top-level moov / moof
 What is written INTO the region (ilst, free, meta/udta wrappers) is a parameter; the tie between
 `saveAt` and the code is the correspondence check of harness/props/c10.py (byte equality with the
@@ -139,7 +141,7 @@ size header are excluded by `SaveSafe`; the code mishandles them, see known_find
 theorem chunk_offsets_follow_partial : ChunkOffsetsFollow := by
   intro f atoms parents o old new g hs hmoov hsafe t ht
   obtain ⟨hsz, hpw, hclear, hin, h8⟩ := hsafe
-  rw [saveAt_eq_saveAt8 f atoms parents o old new h8] at hs
+  rw [saveAt_eq_saveAt8 f atoms parents o old new hsz hclear h8] at hs
   rw [← visited_eq_allTables atoms hmoov] at ht
   refine ⟨fun hw => ?_, fun hw => ?_⟩
   · obtain ⟨h1, h2⟩ := table_patched f atoms parents o old new g hs hsz hpw t ht hw (hclear t ht) (hin t ht)
